@@ -135,6 +135,8 @@ namespace vf::rt {
         // opt-in (targets whose programs never suspend workers): queues that hold work (pending or staged) while
         // no task is active and no task has been activated for this many consecutive samples = stranded work
         int stranded_after_samples = 0;
+        // tasks the program keeps blocked on purpose for the time being (they are not evidence of a deadlock)
+        std::atomic<long long> expected_suspended{0};
         // flight recorder: the last hook events (all sites), dumped into failure messages on request
         struct Rec { std::atomic<std::uint64_t> seq{0}; int site = 0; void const* obj = nullptr; std::uint64_t a = 0, b = 0; long tid = 0; };
         static constexpr std::size_t nrec = 1u << 13;
@@ -548,11 +550,12 @@ namespace vf::rt {
                         fail_now("no_signal_quiescent", "the main thread waits for a completion signal, but the runtime is quiescent for " + std::to_string(K) +
                                 " consecutive samples (" + d + ", activation counter unchanged) and no external actor is alive: nobody can ever deliver it; " + extra);
                     }
-                    if (quiet >= K && susp == 0 && pend == 0 && pika::threads::detail::get_global_activity_count() == 0) { quiet = 0; continue; }
+                    long long exp_susp = G().expected_suspended.load();
+                    if (quiet >= K && susp <= exp_susp && pend == 0 && static_cast<long long>(pika::threads::detail::get_global_activity_count()) <= exp_susp) { quiet = 0; continue; }
                     if (quiet >= K)
                     {
                         std::string extra = G().diagnose ? G().diagnose() : std::string();
-                        fail_now(pend > 0 ? "dropped_task_quiescent" : susp > 0 ? "deadlock_quiescent" : "stuck_quiescent",
+                        fail_now(pend > 0 ? "dropped_task_quiescent" : susp > exp_susp ? "deadlock_quiescent" : "stuck_quiescent",
                             "runtime quiescent for " + std::to_string(K) + " consecutive samples (" + d +
                                 ", phase counter unchanged, no external actor) while the main thread still waits; " + extra);
                     }
